@@ -70,6 +70,24 @@ Theorem spliced_paths_checked_dashboard_gen : forall U ver srcs g,
 Proof. exact (fun U ver srcs g => dash_splices_safe U (g_checked G) ver srcs g gen_checks_cover_splices). Qed.
 Print Assumptions spliced_paths_checked_dashboard_gen.
 
+(* source names that came in through the dashboard: web.SaveSource stores a
+   source only when [save_source_ok] (non-empty, wstrings.Safe); with such
+   sources every splice of the tasks of a stored integration is safe —
+   `set application_name = 'shovel-task-<src>-…'` and `pg_notify('<src>-…')`
+   included.  A name that fails the check is not stored (no statement reaches
+   the database: checked on the wire by the correspondence run). *)
+Theorem spliced_paths_checked_dashboard_sources : forall U checked ver srcs g,
+  check_paths checked spliced = true ->
+  check_user_input U checked (root_of g) = true -> Forall (fun s => save_source_ok U s = true) srcs ->
+  forall st p v, In st (all_sql_dash ver srcs g) -> In (Splice p v) (st_text st) ->
+  safe U v = true /\ In p spliced_paths.
+Proof. exact dash_sources_splices_safe. Qed.
+Print Assumptions spliced_paths_checked_dashboard_sources.
+
+Theorem save_source_rejects_unsafe_name : forall U name, safe U name = false -> save_source_ok U name = false.
+Proof. exact save_source_rejects_unsafe. Qed.
+Print Assumptions save_source_rejects_unsafe_name.
+
 (* ---- rejected before any SQL ---- *)
 (* a value outside the alphabet at ANY spliced position of the submitted
    configuration makes validation fail (file path: no statement is issued
